@@ -2033,7 +2033,15 @@ func (s *Server) Serve(ln net.Listener) error {
 		}
 		s.setState(c, StateNew)
 		s.open.Add(1)
-		if !wp.Serve(c) {
+		// Concurrency bounds the connections of the whole server, whichever
+		// way they came in (this listener, another one, ServeConn): take the
+		// server-wide slot before the connection goes to this listener's pool.
+		served := s.tryAcquireConcurrency()
+		if served && !wp.Serve(c) {
+			s.releaseConcurrency()
+			served = false
+		}
+		if !served {
 			s.open.Add(-1)
 			s.rejectedRequestsCount.Add(1)
 			s.writeFastError(c, StatusServiceUnavailable,
@@ -2355,10 +2363,9 @@ func (s *Server) serveConn(c net.Conn) error {
 }
 
 func (s *Server) serveConnCounted(c net.Conn, countConcurrency bool) error {
+	// countConcurrency: the connection comes from Serve, which has taken its
+	// concurrency slot already; it is given back when the connection is done.
 	defer s.serveConnCleanup(countConcurrency)
-	if countConcurrency {
-		s.concurrency.Add(1)
-	}
 
 	proto, err := s.getNextProto(c)
 	if err != nil {
